@@ -2,6 +2,7 @@ package main
 
 import (
 	"fmt"
+	"go/constant"
 	"go/token"
 	"go/types"
 	"math"
@@ -140,6 +141,58 @@ func runC01(c *Ctx) {
 		}
 		key := "float-precision:" + shortFn(fn)
 		c.Check(len(bad) == 0, key, rPrec, fmt.Sprintf("%d integer→float conversions, none of a truncated quotient", nConv), "an integer quotient is truncated before it enters the float64 schedule formula: the fraction of a period/unit is lost and hits(t) leaves the configured curve", c.atsOr(bad, fn)...)
+	}
+
+	// (1c) a convergence / tolerance test on a signed float difference is two-sided: |d| < ε, not d < ε
+	const rTol = "a float difference compared with a small positive tolerance goes through math.Abs (or is bounded on both sides): a one-sided test accepts an arbitrarily large error of the other sign"
+	for _, fn := range fns {
+		var bad []ssa.Instruction
+		n := 0
+		eachInstr(fn, func(i ssa.Instruction) {
+			cmp, ok := i.(*ssa.BinOp)
+			if !ok || (cmp.Op != token.LSS && cmp.Op != token.LEQ) {
+				return
+			}
+			k, isK := cmp.Y.(*ssa.Const)
+			if !isK || k.Value == nil {
+				return
+			}
+			if b, isB := cmp.X.Type().Underlying().(*types.Basic); !isB || b.Info()&types.IsFloat == 0 {
+				return
+			}
+			eps, _ := constant.Float64Val(constant.ToFloat(k.Value))
+			if !(eps > 0 && eps < 1) {
+				return
+			}
+			n++
+			if call, isCall := cmp.X.(*ssa.Call); isCall && callName(&call.Call) == "math.Abs" {
+				return
+			}
+			sub, isSub := cmp.X.(*ssa.BinOp)
+			if !isSub || sub.Op != token.SUB {
+				return // not a difference: a plain magnitude or rate
+			}
+			// a companion lower bound on the same difference makes it two-sided
+			twoSided := false
+			eachInstr(fn, func(j ssa.Instruction) {
+				o, isO := j.(*ssa.BinOp)
+				if !isO || (o.Op != token.GTR && o.Op != token.GEQ) {
+					return
+				}
+				if ok2, isK2 := o.Y.(*ssa.Const); isK2 && ok2.Value != nil {
+					if v, _ := constant.Float64Val(constant.ToFloat(ok2.Value)); v < 0 && describeVal(o.X) == describeVal(cmp.X) {
+						twoSided = true
+					}
+				}
+			})
+			if !twoSided {
+				bad = append(bad, cmp)
+			}
+		})
+		if n == 0 {
+			continue
+		}
+		c.Check(len(bad) == 0, "tolerance-two-sided:"+shortFn(fn), rTol, fmt.Sprintf("%d tolerance test(s), all on |d|", n), "a signed difference is tested against the tolerance on one side only: an error of the other sign, however large, is accepted as converged", c.atsOr(bad, fn)...)
 	}
 
 	// (4) no other panic-capable instruction; callee whitelist
